@@ -128,6 +128,7 @@ const (
 	LexerBuiltinOperator
 	LexerRuneLit
 	LexerRuneEscaped
+	LexerEscDigits // inside \xNN, \uNNNN or \UNNNNNNNN of a string or rune literal
 )
 
 type Lexer struct {
@@ -146,6 +147,12 @@ type Lexer struct {
 
 	priori    int
 	priorRune [20]rune
+
+	// pending \x \u \U escape: digits seen so far, how many are
+	// needed, and the literal state to return to.
+	escDigits []rune
+	escNeed   int
+	escBack   LexerState
 }
 
 func (lexer *Lexer) AppendToken(tok Token) {
@@ -217,7 +224,7 @@ func (lex *Lexer) pendingAtEnd() bool {
 	switch lex.state {
 	case LexerStrLit, LexerStrEscaped, LexerBacktickString,
 		LexerCommentBlock, LexerCommentBlockAsterisk,
-		LexerRuneLit, LexerRuneEscaped:
+		LexerRuneLit, LexerRuneEscaped, LexerEscDigits:
 		// inside a string, raw string, block comment or rune
 		// literal: a terminator would become part of it.
 		return false
@@ -308,8 +315,66 @@ func EscapeChar(char rune) (rune, error) {
 		return '\'', nil
 	case '#':
 		return '#', nil
+	case 'b':
+		return '\b', nil
+	case 'f':
+		return '\f', nil
+	case 'v':
+		return '\v', nil
 	}
 	return ' ', errors.New("invalid escape sequence")
+}
+
+// startNumericEscape begins a \xNN, \uNNNN or \UNNNNNNNN escape (the forms
+// the printer emits for bytes and runes that are not printable), to be
+// completed by numericEscapeDigit; back is the literal state to resume.
+func (lexer *Lexer) startNumericEscape(r rune, back LexerState) bool {
+	switch r {
+	case 'x':
+		lexer.escNeed = 2
+	case 'u':
+		lexer.escNeed = 4
+	case 'U':
+		lexer.escNeed = 8
+	default:
+		return false
+	}
+	lexer.escDigits = lexer.escDigits[:0]
+	lexer.escBack = back
+	lexer.state = LexerEscDigits
+	return true
+}
+
+func (lexer *Lexer) numericEscapeDigit(r rune) error {
+	var d rune
+	switch {
+	case r >= '0' && r <= '9':
+		d = r - '0'
+	case r >= 'a' && r <= 'f':
+		d = r - 'a' + 10
+	case r >= 'A' && r <= 'F':
+		d = r - 'A' + 10
+	default:
+		return errors.New("invalid escape sequence")
+	}
+	lexer.escDigits = append(lexer.escDigits, d)
+	if len(lexer.escDigits) < lexer.escNeed {
+		return nil
+	}
+	var v rune
+	for _, x := range lexer.escDigits {
+		v = v<<4 | x
+	}
+	if lexer.escNeed == 2 && lexer.escBack == LexerStrLit {
+		lexer.buffer.WriteByte(byte(v)) // \xNN in a string is a byte
+	} else {
+		if v > 0x10FFFF || (v >= 0xD800 && v <= 0xDFFF) {
+			return errors.New("invalid escape sequence")
+		}
+		lexer.buffer.WriteRune(v)
+	}
+	lexer.state = lexer.escBack
+	return nil
 }
 
 func DecodeChar(atom string) (string, error) {
@@ -566,6 +631,9 @@ top:
 		return nil
 
 	case LexerStrEscaped:
+		if lexer.startNumericEscape(r, LexerStrLit) {
+			return nil
+		}
 		char, err := EscapeChar(r)
 		if err != nil {
 			return err
@@ -573,6 +641,9 @@ top:
 		lexer.buffer.WriteRune(char)
 		lexer.state = LexerStrLit
 		return nil
+
+	case LexerEscDigits:
+		return lexer.numericEscapeDigit(r)
 
 	case LexerRuneLit:
 		if r == '\\' {
@@ -590,6 +661,9 @@ top:
 		return nil
 
 	case LexerRuneEscaped:
+		if lexer.startNumericEscape(r, LexerRuneLit) {
+			return nil
+		}
 		char, err := EscapeChar(r)
 		if err != nil {
 			return err
